@@ -69,6 +69,40 @@ class SimThread(object):
     return "%s@%s" % (self.role, self.state)
 
 
+_OPCODES_WARM = False
+
+
+def _warm_up_opcode_tracing():
+  """ CPython (3.12) delivers no "opcode" event to the very first frame of a
+  process that asks for them (instruction instrumentation is switched on
+  process-wide only then).  Without this the first instruction-granularity
+  run of every worker process would differ from its replay. """
+  global _OPCODES_WARM
+  if _OPCODES_WARM:
+    return
+  _OPCODES_WARM = True
+
+  def dummy():
+    return None
+
+  def local(frame, event, arg):
+    return local
+
+  def glob(frame, event, arg):
+    if frame.f_code is dummy.__code__:
+      frame.f_trace_opcodes = True
+      return local
+    return None
+
+  old = sys.gettrace()
+  sys.settrace(glob)
+  try:
+    dummy()
+    dummy()
+  finally:
+    sys.settrace(old)
+
+
 class Scheduler(object):
   """
   knobs: strategy in {rtb, random, sticky, pct}, sticky_den, pct_d, gap_max
@@ -108,6 +142,12 @@ class Scheduler(object):
     # source line (a chosen race window is held open), a few times per run
     self.hot_line = self.k.get("hot_line")
     self.hot_budget = self.k.get("hot_budget", 0) if self.hot_line else 0
+    # pre-emption granularity: source line (default) or bytecode instruction
+    # ("opcodes" knob: the gap between two pre-emption points then counts
+    # instructions, so a switch can land inside one source line)
+    self.opcodes = bool(self.k.get("opcodes", 0))
+    if self.opcodes:
+      _warm_up_opcode_tracing()
     self.pct_changes = []
     self.pct_low = -1
     self.inert = False
@@ -332,7 +372,8 @@ class Scheduler(object):
     if self.line_gap > 0:
       return
     self.line_budget -= 1
-    self.count("line-preemption-points")
+    self.count("opcode-preemption-points" if self.opcodes
+               else "line-preemption-points")
     self._arm_line_gap()
     self.yield_point("line", sync=False)
 
@@ -455,6 +496,8 @@ class Scheduler(object):
   # ----------------------------------------------------------------- tracing
   def _global_trace(self, frame, event, arg):
     if frame.f_code.co_filename in self.trace_files:
+      if self.opcodes:
+        frame.f_trace_opcodes = True
       return self._local_trace
     return None
 
@@ -469,8 +512,11 @@ class Scheduler(object):
           self.hot_budget -= 1
           self.count("hot-line-preemptions")
           self.yield_point("line", sync=False)
-        else:
+        elif not self.opcodes:
           self.line_event()
+    elif event == "opcode":
+      if self.opcodes and CURRENT is self and not self.inert:
+        self.line_event()
     return self._local_trace
 
   # ------------------------------------------------------------------- run
